@@ -104,7 +104,7 @@ def do_run(sid, tier='quick', extra_env=None, in_repo=False):
         finally:
             sh('git -C /repo checkout -- .')
     else:
-        wt = '/tmp/seedrun-%s' % sid
+        wt = '/tmp/seedrun-%s-%d' % (sid, os.getpid())
         sh('git -C /repo worktree remove --force %s' % wt)
         rc, out = sh('git -C /repo worktree add --detach %s HEAD -q' % wt)
         assert rc == 0, out
